@@ -45,12 +45,16 @@ def payload(ty, rel):
 
 def rel_index(ty, rel):
     """tags as naturals for the model: index in sorted order (lexicographic == chronological for vYYYY-MM-DD); unknown -> 99"""
-    tags = sorted(TAGS[ty] + (['v2021-01-01'] if ty == 'HPO' else []))
+    tags = sorted(TAGS[ty] + (EXTRA_RELEASES if ty == 'HPO' else []))
     return tags.index(rel) if rel in tags else 99
 
 
+# releases that exist on the remote but are not listed as tags (explicit loads only); two of them differ in letter case only
+EXTRA_RELEASES = ['v2021-01-01', 'v2021-01-01-RC1', 'v2021-01-01-rc1']
+
+
 def all_keys():
-    return [(ty, r) for ty in TAGS for r in TAGS[ty]] + [('HPO', 'v2021-01-01')]
+    return [(ty, r) for ty in TAGS for r in TAGS[ty]] + [('HPO', r) for r in EXTRA_RELEASES]
 
 
 REMOTE = {k: payload(*k) for k in all_keys()}
@@ -385,7 +389,7 @@ def run_history(ctx, ops, relative, stream):
 def op_alphabet():
     loads = []
     for ty, rel in (('HPO', 'v2023-10-09'), ('HPO', None), ('HPO', 'v2022-10-05'), ('MAxO', 'v2023-03-09'), ('MAxO', None), ('MONDO', None),
-                    ('HPO', 'v1999-01-01')):
+                    ('HPO', 'v1999-01-01'), ('HPO', 'v2021-01-01-RC1'), ('HPO', 'v2021-01-01-rc1')):
         loads.append(['load', ty, rel, {}, 'generic'])
     L = len(REMOTE[('HPO', 'v2023-10-09')])
     for plan in ({'fetch': 'fail'}, {'read': 'fail'}, {'write': 0}, {'write': 1}, {'write': L - 1}, {'tags': 'fail'}):
@@ -795,6 +799,52 @@ def environment_probe(ctx):
                                       'theorem': 'Hpv.Props.C07.loaded_is_remote (what is loaded equals loading the served bytes, whatever the locale)'})
 
 
+def moving_tags(ctx):
+    """the release service answers differently from one call to the next (a release is published while a load is running): whatever
+    tag a file is NAMED after, it must hold that release's bytes, and what was loaded is a release that was listed"""
+    from hpotk.store import OntologyStore, OntologyReleaseService, RemoteOntologyService, OntologyType
+    listings = [['v2023-10-09'], ['v2023-10-09', 'v2024-06-06'], ['v2023-10-09', 'v2024-06-06', 'v2024-09-09']]
+    for shift in range(3):
+        calls = {'n': shift}
+
+        class Rel(OntologyReleaseService):
+            def fetch_tags(self, ontology_type):
+                calls['n'] += 1
+                return iter(listings[min(calls['n'] - 1, 2)])
+
+        class Rem(RemoteOntologyService):
+            def fetch_ontology(self, ontology_type, release):
+                return io.BytesIO(payload('HPO', release))
+        d = tempfile.mkdtemp(prefix='verif-c07-moving-')
+        ctx.case(['moving-tags', shift], True, 'release listing changes between calls', sample={'listings': listings, 'first_call_sees': shift})
+        problem = None
+        try:
+            store = OntologyStore(os.path.join(d, 'store'), Rel(), Rem())
+            for k in range(2):
+                try:
+                    got = dump_onto(store.load_minimal_hpo())
+                except Exception as e:  # noqa
+                    got = f'raises {type(e).__name__}'
+                cache, other = tree(os.path.join(d, 'store'))
+                for (ty, rel), data in cache.items():
+                    if data != payload('HPO', rel):
+                        problem = f'after load #{k + 1} the cache file named after {rel} does not hold the bytes of release {rel}'
+                sigs = []
+                for rel in listings[2]:
+                    p = os.path.join(d, f'sig-{rel}.json')
+                    with _real_open(p, 'wb') as fh:
+                        fh.write(payload('HPO', rel))
+                    import hpotk
+                    sigs.append(dump_onto(hpotk.load_minimal_ontology(p, prefixes_of_interest={'HP'})))
+                if problem is None and got not in sigs:
+                    problem = f'load #{k + 1} returned {got}, which is none of the listed releases'
+        finally:
+            shutil.rmtree(d, ignore_errors=True)
+        if problem:
+            ctx.violation('moving-tags', {'case': {'kind': 'moving-tags', 'first_call_sees': shift}, 'impl': problem,
+                                          'theorem': 'Hpv.Props.C07.no_incomplete_file (a cache file holds the bytes the remote serves for ITS key)'})
+
+
 def configured_store(ctx):
     """`configure_ontology_store`: the platform default directory ($HOME/.hpo-toolkit, created on demand), an existing directory,
     a missing directory (ValueError); the store it returns caches and clears like any other"""
@@ -853,6 +903,7 @@ def run(ctx):
     thorough = ctx.tier == 'thorough'
     install()
     environment_probe(ctx)
+    moving_tags(ctx)
     configured_store(ctx)
     github_layer(ctx, rng, thorough)
     alpha = op_alphabet()
@@ -892,5 +943,7 @@ def replay(ctx, data):
         configured_store(ctx)
     elif c['kind'] == 'environment':
         environment_probe(ctx)
+    elif c['kind'] == 'moving-tags':
+        moving_tags(ctx)
     else:
         run_schedule(ctx, c['jobs'], c['schedule'], 'replay')
